@@ -22,7 +22,7 @@ RULE = ('strata: X = exhaustive layering of 2 names over 5 layer slots (register
         'configured directories plus a configured-but-missing one, files B.yaml a.yaml a10.json a2.yaml .hidden.yaml '
         'sub/x.yaml Z.yaml z.json m.yaml created in shuffled order, every file independently JSON / YAML / line-style YAML, paths absolute or relative to a configuration directory; '
         'Z = exhaustive file-selection table 7 ways of setting policy_file x 8 existence patterns x fallback switch x '
-        'explicit argument = 224 rows. Each configuration is decided for every name under every single-role credential; in half of the configurations the registered defaults declare scope types and every decision is repeated with a wrongly scoped token (must be denied whichever layer wins). '
+        'explicit argument (none, a fourth file, or one of the three names themselves) = 560 rows. Each configuration is decided for every name under every single-role credential; in half of the configurations the registered defaults declare scope types and every decision is repeated with a wrongly scoped token (must be denied whichever layer wins). '
         'Non-trivial = at least one name is defined in two or more layers; distinct = distinct configuration.')
 ASSUMPTIONS = ['lexicographic order = Python sorted() of the file names (code-point order)',
                'oslo_policy.opts._options is swapped for a pristine deep copy around cases that call set_defaults',
@@ -32,8 +32,8 @@ LEVEL_TEXT = ('The file-selection table and the small layering space are enumera
               'the rest structured sampling.')
 LEVEL_NOTE = 'trusted: the fold that computes the expected effective layer; PyYAML/json as writers'
 PLAN = {'quick': dict(shards=4, wall=60), 'thorough': dict(shards=16, wall=400)}
-MIN = {'evaluations': 600, 'decisions': 5000, 'allow_decisions': 300, 'file_selection_rows': 224,
-       'configs_with_shadowing': 300, 'scoped_decisions': 500}
+MIN = {'evaluations': 600, 'decisions': 5000, 'allow_decisions': 300, 'file_selection_rows': 560,
+       'configs_with_shadowing': 300, 'scoped_decisions': 500, 'reloads_after_rewrite': 200}
 ANCHORS = ['oslo_policy.policy:Enforcer.load_rules', 'oslo_policy.policy:Enforcer._walk_through_policy_directory',
            'oslo_policy.policy:pick_default_policy_file', 'oslo_policy.policy:parse_file_contents',
            'oslo_policy.policy:Enforcer.enforce']
@@ -127,6 +127,24 @@ def check_layering(ctx, case):
                     ctx.violation(key, case, {'name': n, 'role': r, 'expected_layer': eff.get(n), 'observed': got,
                                               'layers': {l[0]: sorted(l[2]) for l in case['layers']}})
                     return
+        if case.get('rewrite') and not case.get('_second_pass'):
+            # an operator re-saves one policy.d file (same content, newer mtime): the long-lived enforcer reloads and must
+            # arrive at the very same effective policy
+            victims = [l for l in case['layers'] if l[1] and os.path.dirname(l[1]) in case['dirs'] and not os.path.basename(l[1]).startswith('.')]
+            if victims:
+                v = victims[case['rewrite'] % len(victims)]
+                tree.write(v[1], content[v[0]], case['fmts'].get(v[0], 'json'))
+                ctx.count('reloads_after_rewrite')
+                for n in names:
+                    for r in roles:
+                        try:
+                            got = bool(enf.enforce(n, {}, {'roles': [r]}))
+                        except Exception as e:
+                            got = 'EXC:' + type(e).__name__
+                        if got != (eff.get(n) == r):
+                            ctx.violation('layering-wrong-after-reload', case,
+                                          {'rewritten': v[1], 'name': n, 'role': r, 'expected_layer': eff.get(n), 'observed': got})
+                            return
     finally:
         tree.cleanup()
 
@@ -153,7 +171,7 @@ def gen_layering(rnd):
     dirs = list(DIRS)
     if rnd.random() < 0.3:
         rnd.shuffle(dirs)
-    return dict(s='Y', names=names, dirs=dirs, layers=layers, fmts=fmts, write_order=order, subdir=True, scoped=rnd.random() < 0.5,
+    return dict(s='Y', names=names, dirs=dirs, layers=layers, fmts=fmts, write_order=order, subdir=True, scoped=rnd.random() < 0.5, rewrite=rnd.choice([0, 0, 1, 2, 3]),
                 relative=rnd.random() < 0.4)
 
 
@@ -173,7 +191,7 @@ def exhaustive_layerings():
                     layers.append([lid, p, defs])
             fmts = {l[0]: ('json', 'yaml', 'yaml-lines')[(i + k) % 3] for k, l in enumerate(layers) if l[1]}
             order = [l[0] for l in reversed(layers)]
-            yield dict(s='X', names=['n1', 'n2', 'n3'], dirs=['d1', 'd2'], layers=layers, fmts=fmts, write_order=order, scoped=bool(i % 2))
+            yield dict(s='X', names=['n1', 'n2', 'n3'], dirs=['d1', 'd2'], layers=layers, fmts=fmts, write_order=order, scoped=bool(i % 2), rewrite=(i % 3))
             i += 1
 
 
@@ -186,8 +204,10 @@ def check_selection(ctx, case):
     from oslo_policy import opts, policy
     how, ex_yaml, ex_json, ex_other, fallback, explicit = (case['how'], case['yaml'], case['json'], case['other'],
                                                           case['fallback'], case['explicit'])
-    pristine = opts._options
-    opts._options = copy.deepcopy(pristine)
+    # set_defaults() mutates a module-level option list shared by every ConfigOpts of the process: work on a copy
+    pristine = getattr(opts, '_options', None)
+    if pristine is not None:
+        opts._options = copy.deepcopy(pristine)
     tree = files.Tree(dirs=())
     try:
         d = tree.root
@@ -219,6 +239,8 @@ def check_selection(ctx, case):
         else:
             want = value                                      # the configured one
         exists = {'policy.yaml': ex_yaml, 'policy.json': ex_json, 'other.yaml': ex_other, 'explicit.yaml': 1}[want]
+        if explicit:
+            ctx.count('explicit_file_rows')
         got = []
         for fn in ('policy.yaml', 'policy.json', 'other.yaml', 'explicit.yaml'):
             try:
@@ -234,7 +256,8 @@ def check_selection(ctx, case):
             key = 'legacy-json-fallback-wrong' if ('policy.json' in got or want == 'policy.json') else 'wrong-policy-file-selected'
             ctx.violation(key, case, {'row': case, 'expected_file': expd, 'observed_file': got})
     finally:
-        opts._options = pristine
+        if pristine is not None:
+            opts._options = pristine
         tree.cleanup()
 
 
@@ -242,7 +265,7 @@ def run(ctx):
     # Z: exhaustive file-selection table
     idx = 0
     done = True
-    for how, y, j, o, fb, ex in itertools.product(HOW, [0, 1], [0, 1], [0, 1], [True, False], [None, 'explicit.yaml']):
+    for how, y, j, o, fb, ex in itertools.product(HOW, [0, 1], [0, 1], [0, 1], [True, False], [None, 'explicit.yaml', 'policy.yaml', 'policy.json', 'other.yaml']):
         idx += 1
         if not ctx.mine(idx):
             continue
